@@ -58,8 +58,15 @@ class Lexer:
             elif ch == "<":
                 self.consume_bracketed()
             elif ch == ":":
-                self.position += 1
-                length = self.read_symbol()
+                self.next_char()
+                if self.position < len(self.text) and (
+                    self.text[self.position].isalpha()
+                    or self.text[self.position].isdigit()
+                    or self.text[self.position] == "_"
+                ):
+                    length = self.read_symbol()
+                else:
+                    length = 0
                 self.set_token(Token.FMT, length=length)
             elif ch == "-":
                 self.set_token(Token.MINUS)
